@@ -31,6 +31,7 @@ def execute(case):
         C = get_cancelled_exc_class()
         gates, start_gates = {}, {}
         waiting = set()
+        nwaiting = collections.Counter()
         st = {"factory": None, "owner": None}
         done = Event()
         cmds = anyio.create_memory_object_stream(20)
@@ -127,9 +128,12 @@ def execute(case):
             return func
 
         async def waiter(k, h):
+            nwaiting[k] += 1
             waiting.add(k)
             await h.wait_finished()
-            waiting.discard(k)
+            nwaiting[k] -= 1
+            if nwaiting[k] == 0:
+                waiting.discard(k)            # (two tasks wait for the same handle: every one of them has to be released)
             log(ev="wait.returned", k=k)
 
         async def do_spawn(k, tg, and_cancel=False):
@@ -149,6 +153,7 @@ def execute(case):
                     log(ev="start_task.refused", k=k)
                     return
             if prog["waiters"]:
+                tg.start_soon(waiter, k, h)
                 tg.start_soon(waiter, k, h)
 
         async def spawn_from(k, tg, and_cancel):
@@ -174,6 +179,11 @@ def execute(case):
                             async def start(self_inner):
                                 st["factory"] = await start_background_task_factory(exception_handler=handler if has_handler else None)
                         await start_component(FactoryComponent, timeout=None)
+                    elif case.get("seed", 0) % 4 == 2:
+                        # the method is called on the owning context while another (nested) context is the current one
+                        async with Context() as elsewhere:
+                            elsewhere.add_resource(RT[2]())
+                            st["factory"] = await ctx.start_background_task_factory(exception_handler=handler if has_handler else None)
                     else:
                         st["factory"] = await ctx.start_background_task_factory(exception_handler=handler if has_handler else None)
                     log(ev="factory.start")
